@@ -13,6 +13,7 @@ import (
 	"regexp"
 	"strings"
 	"sync"
+	"syscall"
 )
 
 type replayTable struct {
@@ -196,4 +197,31 @@ func SkeletonPath(name string) string {
 		root = "/verif/skeletons"
 	}
 	return root + "/" + name + "/setup.go"
+}
+
+// CaptureStderr runs f and returns what was written to standard error meanwhile (natively file
+// descriptor 2 is redirected, because convergen's loggers bind os.Stderr at start-up).
+func CaptureStderr(f func()) string {
+	tmp, err := os.CreateTemp("", "vrt-stderr")
+	if err != nil {
+		f()
+		return ""
+	}
+	defer os.Remove(tmp.Name())
+	saved, err := syscall.Dup(2)
+	if err != nil {
+		f()
+		return ""
+	}
+	_ = syscall.Dup2(int(tmp.Fd()), 2)
+	func() {
+		defer func() {
+			_ = syscall.Dup2(saved, 2)
+			_ = syscall.Close(saved)
+		}()
+		f()
+	}()
+	b, _ := os.ReadFile(tmp.Name())
+	tmp.Close()
+	return string(b)
 }
